@@ -683,14 +683,16 @@ class BaseTaskPool:
             `PoolStillUnlocked`: The pool has not been locked yet.
         """
         self.lock()
+        # A meta task cancelled before it ever ran raises `CancelledError`;
+        # that must not cut short the wait for those that are still spawning.
+        await gather(*self._meta_tasks_cancelled, return_exceptions=True)
+        # Collected only now: an overlapping `flush` may drop groups from the
+        # dictionary during the wait above, which breaks an earlier iterator.
         not_cancelled_meta_tasks = (
             task
             for task_set in self._group_meta_tasks_running.values()
             for task in task_set
         )
-        # A meta task cancelled before it ever ran raises `CancelledError`;
-        # that must not cut short the wait for those that are still spawning.
-        await gather(*self._meta_tasks_cancelled, return_exceptions=True)
         await gather(
             *not_cancelled_meta_tasks,
             return_exceptions=return_exceptions,
